@@ -50,6 +50,14 @@ def cases(draw, tier):
         case["fn"] = draw(st.sampled_from(FNS))
     if what == "rankdata":
         case["method"] = draw(st.sampled_from(RANKS))
+    if what in ("norm", "cli"):
+        # totals far below / above 1 (powers of two keep everything exact)
+        k = draw(st.sampled_from([0, 0, -40, -60, 40]))
+        if k:
+            spec["rows"] = [[x * 2.0 ** k for x in r] for r in spec["rows"]]
+            spec["history"] = [o for o in spec["history"]
+                               if o["op"] != "subsample"]
+        case["scale"] = k
     if what == "cli":
         case["mode"] = draw(st.sampled_from(["-r", "-p"]))
         case["sub"] = draw(st.sampled_from(SUB))
